@@ -23,6 +23,7 @@ VARIABLES l, fails, seen, nrand, done
 tvars == <<l, fails, seen, nrand, done>>
 
 IsMatrix(r) == ~Has(r.in, "rand")
+IsStagingRec(r) == IsStaging(r.in)
 
 Checks(i, r) ==
      Chk(Want, i, "C17_CanaryUntouched", C17_CanaryUntouched(r.events, r.canary0, r.canary1))
@@ -33,7 +34,7 @@ Checks(i, r) ==
       ELSE <<>>)
   \o (IF Has(r, "stage") THEN
         Chk(Want, i, "C17_StageBaseCrossingFails",
-            (IsMatrix(r) /\ r.in.moment = "mid") \/
+            (IsMatrix(r) /\ ~IsStagingRec(r) /\ r.in.moment = "mid") \/
             \A j \in DOMAIN r.stage.ret : C17_StageBaseCrossingFails(r.disk0, r.stage.ret[j], r.stage.sigs[j]))
         \o Chk(Want, i, "C17_ReceiveCrossingFails",
             \A j \in DOMAIN r.stage.ret : C17_ReceiveCrossingFails(r.disk0, r.stage.ret[j], r.stage.sigs[j], r.stage.staged[j]))
@@ -47,7 +48,24 @@ Checks(i, r) ==
       ELSE <<>>)
   \o (IF r.hang THEN <<Fail(i, "TraceAccepted")>> ELSE <<>>)
   \* the driver's scenario is one of the model's, and the link really is where the scenario says
-  \o (IF IsMatrix(r) THEN
+  \o (IF IsStagingRec(r) THEN
+        Chk(Want, i, "C17_StagingRootNotFollowed",
+            C17_StagingRootNotFollowed(r.sroot0.kind, r.sroot0.prefixLink, r.stage.err))
+        \o Chk(Want, i, "DriverInMatrix", r.in \in StagingScenarios)
+        \* what was planted is what the walker saw
+        \o Chk(Want, i, "DriverLinkPlaced",
+               r.sroot0.kind = (CASE r.in.pre = "absent" -> "none"
+                                  [] r.in.pre \in {"dir", "prefix_link"} -> "dir"
+                                  [] r.in.pre = "file" -> "file"
+                                  [] OTHER -> "link")
+               /\ (r.sroot0.prefixLink <=> r.in.pre = "prefix_link"))
+        \* with nothing or a real directory there, everything works
+        \o Chk(Want, i, "DriverControlSucceeds",
+               r.in.pre \in {"absent", "dir"} =>
+                 /\ r.stage.err = "" /\ r.stage.ret = r.stage.req
+                 /\ (r.in.op # "stage_init" => r.stage.staged = <<TRUE>>)
+                 /\ (Has(r, "trans") => r.trans.results = [j \in DOMAIN r.trans.chg |-> r.trans.chg[j].new]))
+      ELSE IF IsMatrix(r) THEN
         Chk(Want, i, "DriverInMatrix", r.in \in Scenarios)
         \o Chk(Want, i, "DriverLinkPlaced",
                r.in.pos >= 0 => \/ RootIsLink(r.disk0)
@@ -70,7 +88,7 @@ Step == /\ l <= NRec
         /\ l' = l + 1 /\ UNCHANGED done
 Finish == /\ l = NRec + 1 /\ ~done
           /\ WriteResult(l - 1, fails,
-                [stat_matrix_seen |-> Cardinality(seen \cap Scenarios), stat_matrix_size |-> Cardinality(Scenarios),
+                [stat_matrix_seen |-> Cardinality(seen \cap (Scenarios \cup StagingScenarios)), stat_matrix_size |-> Cardinality(Scenarios) + Cardinality(StagingScenarios),
                  stat_random_roots |-> nrand])
           /\ done' = TRUE /\ UNCHANGED <<l, fails, seen, nrand>>
 TNext == Step \/ Finish
